@@ -588,6 +588,12 @@ func (tr *Trans) checkWrite(comp, ref string, pos token.Pos, detail string) {
 		return // writes to objects allocated by this very function body are trivially within every frame
 	}
 	tr.cur.assert(fmt.Sprintf("(> %s epoch)", ref), tr.ob("modifies", comp, pos, "write to "+detail+" must target an object allocated during this API call", tr.eng.propsFor(tr.name, "modifies")))
+	if !strings.Contains(ref, "@") {
+		// from here on the reference is known to be new (the assertion is assumed once checked); reads through a
+		// constant reference can use the mutable heap directly. Sound on every path: a direct read of an old object
+		// merely yields an unconstrained value.
+		tr.knownNew[ref] = true
+	}
 	if !tr.checkMod || tr.modCoarse[comp] || tr.modCoarse["*"] {
 		return
 	}
@@ -947,6 +953,8 @@ func (tr *Trans) alloc_(fr *Frame, x *ssa.Alloc) {
 		r := tr.newRef("opq")
 		fr.vals[x] = &Val{K: VExpr, E: r, T: x.Type()}
 		tr.eng.initOpaque(tr, named, r)
+		// in specifications the variable's name denotes a pointer to the (opaque) object
+		tr.recordLocalByAlloc(fr, x, &Addr{K: RWhole, Ref: r, T: t, StructT: t})
 		return
 	}
 	if !fr.escaping[x] {
@@ -1493,6 +1501,17 @@ func (tr *Trans) nextInstr(fr *Frame, x *ssa.Next) {
 		ok, dom, k, cur(vis), k, v, tr.sel(vc, vs, m), k))
 	tr.cur.assume(fmt.Sprintf("(=> (not %s) (and (forall ((%s %s)) (! (=> (select %s %s) (select %s %s)) :pattern ((select %s %s)))) (= %s %s)))",
 		ok, q, mi.KSort, dom, q, cur(vis), q, cur(vis), q, cur(cnt), tr.sel(lc, ls, m)))
+	// the same fact triggered by a membership test on the map itself (one ite-free copy per heap)
+	{
+		hv := tr.heapVar(dc, ds)
+		for _, alt := range [][2]string{
+			{fmt.Sprintf("(> %s epoch)", m), fmt.Sprintf("(select %s %s)", cur(hv), m)},
+			{fmt.Sprintf("(<= %s epoch)", m), fmt.Sprintf("(select %s %s)", heapOldName(tr.il, dc, ds), m)},
+		} {
+			tr.cur.assume(fmt.Sprintf("(=> (and (not %s) %s) (forall ((%s %s)) (! (=> (select %s %s) (select %s %s)) :pattern ((select %s %s)))))",
+				ok, alt[0], q, mi.KSort, alt[1], q, cur(vis), q, alt[1], q))
+		}
+	}
 	tr.cur.assume(fmt.Sprintf("(=> %s (< %s %s))", ok, cur(cnt), tr.sel(lc, ls, m)))
 	tr.cur.assign(vis, fmt.Sprintf("(ite %s (store %s %s true) %s)", ok, cur(vis), k, cur(vis)))
 	tr.cur.assign(cnt, fmt.Sprintf("(ite %s (+ %s 1) %s)", ok, cur(cnt), cur(cnt)))
